@@ -1,0 +1,49 @@
+//go:build verif
+
+package guardiand
+
+// Hooks for the runtime monitors in /verif (compiled only with -tags verif): constructors for
+// the unexported admin service and access to the unexported re-observation dispatcher.
+
+import (
+	"context"
+
+	"github.com/alephium/wormhole-fork/node/pkg/db"
+	gossipv1 "github.com/alephium/wormhole-fork/node/pkg/proto/gossip/v1"
+	nodev1 "github.com/alephium/wormhole-fork/node/pkg/proto/node/v1"
+	"github.com/alephium/wormhole-fork/node/pkg/vaa"
+	"github.com/benbjohnson/clock"
+	"go.uber.org/zap"
+)
+
+// VerifNewPrivilegedService returns the real admin service.
+func VerifNewPrivilegedService(
+	d *db.Database,
+	injectC chan<- *vaa.VAA,
+	obsvReqSendC chan *gossipv1.ObservationRequest,
+	signedInC chan *gossipv1.SignedVAAWithQuorum,
+	logger *zap.Logger,
+	governanceChainId vaa.ChainID,
+	governanceEmitterAddress vaa.Address,
+) nodev1.NodePrivilegedServiceServer {
+	return &nodePrivilegedService{
+		db:                       d,
+		injectC:                  injectC,
+		obsvReqSendC:             obsvReqSendC,
+		logger:                   logger,
+		signedInC:                signedInC,
+		governanceChainId:        governanceChainId,
+		governanceEmitterAddress: governanceEmitterAddress,
+	}
+}
+
+// VerifHandleReobservationRequests runs the real dispatcher.
+func VerifHandleReobservationRequests(
+	ctx context.Context,
+	clk clock.Clock,
+	logger *zap.Logger,
+	obsvReqC <-chan *gossipv1.ObservationRequest,
+	chainObsvReqC map[vaa.ChainID]chan *gossipv1.ObservationRequest,
+) {
+	handleReobservationRequests(ctx, clk, logger, obsvReqC, chainObsvReqC)
+}
